@@ -1,3 +1,75 @@
 import Nv.OracleIO
-/-! oracle_c12 — stub (model not built yet): answers `bad-op` to every line. -/
-def main : IO Unit := Nv.oracleMain (fun (_ : Unit) _ => ((), "bad-op")) ()
+import Nv.Model.C12
+import Nv.Gen.C12
+/-!
+oracle_c12 — line protocol (one queue per script; the first line creates it):
+  `new q <cap>` | `new async <cap>` | `new mux <cap>` | `new mq <ctrlCap> <reqCap>` | `new syncq` | `new priq <cap>` → `ok`
+  list queues: `add x` `prior x` `addc x` `priorc x` `pop` `popany` `trypop` `close` `tryclose` `tryclear`
+               `len` `closed?` `cleared?`
+  priq:        `push x p` `pop` `len`
+results: `ok` `closed` `full` `ctrl-full` `v:<x>` `nil` `none` `would-block` `true|false` `<n>` `bad-op`.
+The configuration is the one regenerated from the source (`Nv.Gen.C12.cfg`).
+-/
+open Nv Nv.C12
+
+inductive St
+  | none
+  | lq (s : LQ)
+  | pq (s : PQ)
+
+def showOut : Out → String
+  | .ok => "ok" | .closed => "closed" | .full => "full" | .ctrlFull => "ctrl-full"
+  | .val x => s!"v:{x}" | .nil => "nil" | .none => "none" | .wouldBlock => "would-block"
+  | .bool b => if b then "true" else "false" | .num n => s!"{n}" | .badOp => "bad-op"
+
+def parseKind (s : String) : Option Kind :=
+  if s == "q" then some .q else if s == "async" then some .async else if s == "mux" then some .mux
+  else none
+
+def parseOp : List String → Option Op
+  | ["add", x] => (parseNat? x).map .add
+  | ["prior", x] => (parseNat? x).map .prior
+  | ["addc", x] => (parseNat? x).map .addCtrl
+  | ["priorc", x] => (parseNat? x).map .priorCtrl
+  | ["pop"] => some .pop
+  | ["popany"] => some .popAnyway
+  | ["trypop"] => some .tryPop
+  | ["close"] => some .close
+  | ["tryclose"] => some .tryClose
+  | ["tryclear"] => some .tryClear
+  | ["len"] => some .len
+  | ["closed?"] => some .isClosed
+  | ["cleared?"] => some .isCleared
+  | _ => none
+
+def parsePOp : List String → Option POp
+  | ["push", x, p] => match parseNat? x, parseInt? p with
+    | some x, some p => some (.push x p)
+    | _, _ => none
+  | ["pop"] => some .pop
+  | ["len"] => some .len
+  | _ => none
+
+def step (st : St) (line : String) : St × String :=
+  match words line with
+  | ["new", "mq", a, b] => match parseInt? a, parseInt? b with
+    | some a, some b => (.lq (LQ.new .mq a b), "ok")
+    | _, _ => (.none, "bad-op")
+  | ["new", "syncq"] => (.lq (LQ.new .syncq 0 0), "ok")
+  | ["new", "priq", a] => match parseInt? a with
+    | some a => (.pq (PQ.new a), "ok")
+    | none => (.none, "bad-op")
+  | ["new", k, a] => match parseKind k, parseInt? a with
+    | some k, some a => (.lq (LQ.new k 0 a), "ok")
+    | _, _ => (.none, "bad-op")
+  | "new" :: _ => (.none, "bad-op")      -- an ill-formed `new` leaves no queue
+  | ws => match st with
+    | .none => (st, "bad-op")
+    | .lq s => match parseOp ws with
+      | some op => let r := Nv.C12.step Nv.Gen.C12.cfg s op; (.lq r.1, showOut r.2)
+      | none => (st, "bad-op")
+    | .pq s => match parsePOp ws with
+      | some op => let r := pstep Nv.Gen.C12.cfg.priq s op; (.pq r.1, showOut r.2)
+      | none => (st, "bad-op")
+
+def main : IO Unit := oracleMain step St.none
